@@ -7,7 +7,7 @@ import time
 from concurrent.futures import ThreadPoolExecutor
 
 
-def _build_h09(ctx):
+def _build_h09(ctx, mode="trace"):
     """Comparison-trace build: library, REST layer and selected std packages with -d=libfuzzer, the js/wasm
     validation files compiled natively through an overlay, an exported router hook added to the api package."""
     import json as _json, re as _re, shutil
@@ -23,7 +23,8 @@ def _build_h09(ctx):
         open(os.path.join(ov, name), "w").write(text2)
         repl[os.path.join(repo, name)] = os.path.join(ov, name)
     open(os.path.join(ov, "api_export.go"), "w").write(
-        "package api\n\nimport \"github.com/valyala/fasthttp\"\n\n// VerifHandle runs the router on a request context (build overlay of /verif/h09).\nfunc VerifHandle(ctx *fasthttp.RequestCtx) { routers(ctx) }\n")
+        "package api\n\nimport \"github.com/valyala/fasthttp\"\n\n// VerifHandle runs the router on a request context (build overlay of /verif/h09).\nfunc VerifHandle(ctx *fasthttp.RequestCtx) { routers(ctx) }\n\n"
+        "// VerifHandleRecovered runs the router behind the service's own Recovery middleware.\nfunc VerifHandleRecovered(ctx *fasthttp.RequestCtx) { Chain(Recovery)(routers)(ctx) }\n")
     repl[os.path.join(repo, "internal", "app", "api", "zz_verif_export.go")] = os.path.join(ov, "api_export.go")
     moddir = os.path.join(root, "h09")
     # ordering comparisons are implemented in assembly and emit no compiler event: hook the two
@@ -53,9 +54,9 @@ def _build_h09(ctx):
         ctx["infra"]("cannot hook strings.Compare / bytes.Compare in %s (std sources differ from what the overlay expects)" % goroot)
     _json.dump({"Replace": repl}, open(os.path.join(ov, "overlay.json"), "w"))
     shutil.copy(os.path.join(root, "h", "common_test.go"), os.path.join(moddir, "zz_common_test.go"))
-    out = os.path.join(work, "h09.test")
+    out = os.path.join(work, "h09.%s.test" % mode)
     env = dict(ctx["env"])
-    cmd = ["./build.sh", out, os.path.join(ov, "overlay.json")]
+    cmd = ["./build.sh", out, os.path.join(ov, "overlay.json"), mode]
     if repo != "/repo":
         src = open(os.path.join(moddir, "go.mod")).read().replace("=> /repo", "=> " + repo)
         mf = os.path.join(work, "h09.go.mod")
@@ -65,6 +66,8 @@ def _build_h09(ctx):
     rc, o = ctx["run"](cmd, moddir, env, 1800, os.path.join(work, "build.log"))
     if rc != 0:
         ctx["infra"]("instrumented build failed", o)
+    if mode == "fuzz":
+        return moddir, out
     return moddir, {"plain": out}
 
 
@@ -74,13 +77,16 @@ def _bins(ctx):
         return _build_h09(ctx)
     moddir = os.path.join(ctx["root"], spec.get("moddir", "h"))
     need = set(r.get("bin", "plain") for r in spec["runs"])
-    if ctx["tier"] == "thorough" and spec.get("fuzz"):
-        need.add("plain")
+    if ctx["tier"] == "thorough" and any(f.get("module") != "h09" for f in spec.get("fuzz", [])) and not ctx.get("replay"):
+        need.add("fuzz")  # built with -fuzz so that the binary carries coverage instrumentation
     out = {}
     for kind in sorted(need):
         path = os.path.join(ctx["work"], "h.%s.test" % kind)
+        extra = list(spec.get("build_extra") or [])
+        if kind == "fuzz":
+            extra.append("-fuzz=Fuzz")
         ctx["build"](moddir, path, ctx["work"], ctx["env"], race=(kind == "race"), tags=spec.get("tags", "verif"),
-                     extra=spec.get("build_extra"), pkg=spec.get("pkg", "."))
+                     extra=extra, pkg=spec.get("pkg", "."))
         out[kind] = path
     return moddir, out
 
@@ -163,18 +169,24 @@ def execute(ctx):
             secs = f.get("seconds", 60)
             cache = os.path.join(work, "fuzzcache-" + f["target"])
             os.makedirs(cache, exist_ok=True)
-            corpus_dir = os.path.join(moddir, "testdata", "fuzz", f["target"])
+            fmod, fbin = moddir, bins.get("fuzz")
+            if f.get("module") == "h09":
+                fmod, fbin = _build_h09(ctx, mode="fuzz")
+            corpus_dir = os.path.join(fmod, "testdata", "fuzz", f["target"])
             before = set(os.listdir(corpus_dir)) if os.path.isdir(corpus_dir) else set()
-            cmd = [bins["plain"], "-test.run", "^$", "-test.fuzz", "^%s$" % f["target"],
+            cmd = [fbin, "-test.run", "^$", "-test.fuzz", "^%s$" % f["target"],
                    "-test.fuzztime=%ds" % secs, "-test.fuzzcachedir=" + cache, "-test.timeout=%ds" % (secs + 600)]
-            rc, out = ctx["run"](cmd, moddir, ctx["env"], secs + 900, os.path.join(work, "run.log"))
+            rc, out = ctx["run"](cmd, fmod, ctx["env"], secs + 900, os.path.join(work, "run.log"))
             after = set(os.listdir(corpus_dir)) if os.path.isdir(corpus_dir) else set()
             for nf in after - before:  # crashers are reported through the JSON replay file, not kept here
                 os.replace(os.path.join(corpus_dir, nf), os.path.join(work, "fuzz-crasher-%s-%s" % (f["target"], nf)))
             m = re.findall(r"execs: (\d+)", out)
-            ni = re.findall(r"new interesting: (\d+)", out)
+            ni = re.findall(r"new interesting: \d+ \(total: (\d+)\)", out)
+            if "not built with coverage instrumentation" in out:
+                failed.append(("fuzz:" + f["target"], 3, "fuzz binary lacks coverage instrumentation\n" + out[-2000:]))
+                break
             fz[f["target"]] = {"seconds": secs, "execs": int(m[-1]) if m else 0,
-                               "new_interesting": int(ni[-1]) if ni else 0}
+                               "corpus_entries_with_new_coverage": int(ni[-1]) if ni else 0}
             if rc != 0:
                 failed.append(("fuzz:" + f["target"], rc, out))
                 break
@@ -184,8 +196,16 @@ def execute(ctx):
 
 
 def replay(ctx):
-    moddir, bins = _bins(ctx)
-    _prebuild(ctx)
+    import json as _json
+    try:
+        part = _json.load(open(ctx["replay"])).get("part", "")
+    except Exception:
+        part = ""
+    if part == "fuzz-inprocess":  # cases of the in-process REST fuzz target live in the h09 module
+        moddir, bins = _build_h09(ctx)
+    else:
+        moddir, bins = _bins(ctx)
+        _prebuild(ctx)
     env = dict(ctx["env"])
     env["VERIF_REPLAY"] = ctx["replay"]
     kind = "plain" if "plain" in bins else sorted(bins)[0]
